@@ -252,8 +252,15 @@ def minimise(case, still_fails, budget_s=20.0):
     return case
 
 
+class NotReplayable(Exception):
+    """The module's replay() refused the case (it is not one its generators produce)."""
+
+
 def _replay_sigs(mod, case):
-    return [sig for sig, _ in mod.replay(case)]
+    res = mod.replay(case)
+    if res is None:
+        raise NotReplayable()
+    return [sig for sig, _ in res]
 
 
 def _quiet_hub():
@@ -348,7 +355,12 @@ def run_check(pid, tier, seed, jobs):
         small = case
         try:
             if sig in _replay_sigs(mod, case):
-                small = minimise(case, lambda c: sig in _replay_sigs(mod, c), per)
+                def still_fails(c, sig=sig):
+                    try:
+                        return sig in _replay_sigs(mod, c)
+                    except NotReplayable:
+                        return False
+                small = minimise(case, still_fails, per)
                 reproducible = True
             else:
                 reproducible = False
@@ -356,14 +368,29 @@ def run_check(pid, tier, seed, jobs):
             reproducible = False
         if not reproducible and getattr(mod, 'REALTIME', False):
             # wall-clock check: a failure that three more runs of the same case do not show again is machine load, not a violation
+            # (a case that cannot be replayed at all cannot be refuted either: it is reported)
             for _ in range(3):
                 try:
                     if sig in _replay_sigs(mod, case):
                         reproducible = True
                         break
+                except NotReplayable:
+                    reproducible = None
+                    break
                 except Exception:
                     pass
-            if not reproducible:
+            if reproducible is None:
+                reproducible = False
+                refuted = False
+            else:
+                refuted = not reproducible
+            if refuted:
+                try:
+                    with open(os.path.join(REPLAY_DIR, pid, 'unconfirmed-' + hashlib.sha1(sig.encode()).hexdigest()[:12] + '.json'), 'w') as f:
+                        json.dump({'property': pid, 'signature': sig, 'message': msg, 'count': cnt, 'seed': seed, 'tier': tier,
+                                   'reproducible_by_replay': False, 'case': case}, f, indent=1, sort_keys=True, default=repr)
+                except Exception:
+                    pass
                 unconfirmed.append({'signature': sig, 'message': msg[:300], 'count': cnt})
                 sys.stderr.write('  UNCONFIRMED (wall-clock check, did not reproduce in 4 replays) %s x%d: %s\n' % (sig, cnt, msg[:200]))
                 continue
@@ -434,6 +461,9 @@ def run_replay(path):
     pid = data['property']
     mod = importlib.import_module('vf.props.' + pid.lower())
     res = mod.replay(data['case'])
+    if res is None:
+        sys.stderr.write('HARNESS ERROR: %s is not a case the check for %s can replay\n' % (path, pid))
+        return 2
     known, _ = load_known(pid)
     bad = 0
     for sig, msg in res:
